@@ -347,6 +347,17 @@ def render_jobs(args, fs):
         return real_cleanup(self, document, files, postProcess=postProcess)
 
     plasTeX.Renderers.Renderer.cleanup = cleanup
+    if args.get('copydir'):
+        # a multi-file document of the corpus: its \input files, class files and pictures (data, copied by the harness)
+        import shutil
+        for dirpath, dirnames, filenames in os.walk(args['copydir']):
+            dirnames.sort()
+            reld = os.path.relpath(dirpath, args['copydir'])
+            os.makedirs(reld, exist_ok=True)
+            for fn in sorted(filenames):
+                dst = os.path.join(reld, fn)
+                if not os.path.exists(dst):
+                    shutil.copyfile(os.path.join(dirpath, fn), dst)
     for job in args['jobs']:
         os.chdir(root)
         SimClock.now = job['clock']
@@ -556,7 +567,8 @@ def execute(record):
             e = {'HOME': base, 'TEXINPUTS': base}
             e.update(environ or {})
             setup = {'root': base, 'cwd': cwd, 'clock': clock, 'perm_seed': perm, 'env': {'environ': e}}
-            st, out = lifetimes.run_lifetime(JOB, {'jobs': jobs}, setup, mode=mode, hashseed=env["hashseed"], timeout=900)
+            copydir = os.path.join(core.REPO, os.path.dirname(doc['corpus'])) if doc.get('withdir') else None
+            st, out = lifetimes.run_lifetime(JOB, {'jobs': jobs, 'copydir': copydir}, setup, mode=mode, hashseed=env["hashseed"], timeout=900)
             if st != 'ok' or not out.get('ok'):
                 raise core.HarnessError('render lifetime failed: %s' % (out and out.get('traceback')))
             return out['result']
@@ -699,7 +711,8 @@ def enumerate_cases(base_seed, tier):
             out.append({'property': PID, 'seed': core.h64('C13-collide', k, split), 'swarm': {'cfg': cfg, 'other': other, 'env': env},
                         'ops': [{'op': 'DOC', 'doc': collision_doc(labels)}, {'op': 'E0'}, {'op': 'E1'}]})
     cfgs = [(2, 'index [$id, sect$num(4)]'), (1, '[$title(2), sect$num(3)]'), (0, 'index [$id, $title(3), f$num]'), (3, '[$ref, $id, s$num]')]
-    for k, rel in enumerate(CORPUS):
+    corpus = [(rel, False) for rel in CORPUS] + ([('Doc/plastex.tex', True)] if tier == 'thorough' else [])   # (the manual: 18 input files, ~100 output files)
+    for k, (rel, withdir) in enumerate(corpus):
         for j, (split, tpl) in enumerate(cfgs if tier == 'thorough' else cfgs[:2]):
             r = random.Random(core.h64('C13-corpus', base_seed, k, j))
             cfg = {'split': split, 'template': tpl, 'single': False, 'bad': None, 'badsub': '-', 'renderer': ['HTML5', 'default']}
@@ -707,7 +720,7 @@ def enumerate_cases(base_seed, tier):
             env = {'hashseed': r.randrange(1, 1 << 30), 'perm': r.randrange(1 << 30), 'dclock': 86400, 'cwd_depth': 1,
                    'outdir': 'o', 'unrelated': 1, 'useexec': True}
             out.append({'property': PID, 'seed': core.h64('C13-corpus', k, j), 'swarm': {'cfg': cfg, 'other': other, 'env': env},
-                        'ops': [{'op': 'DOC', 'doc': {'corpus': rel}}, {'op': 'E0'}, {'op': 'E1'}, {'op': 'E2'}]})
+                        'ops': [{'op': 'DOC', 'doc': dict({'corpus': rel}, **({'withdir': True} if withdir else {}))}, {'op': 'E0'}, {'op': 'E1'}, {'op': 'E2'}]})
     return out
 
 
